@@ -48,6 +48,11 @@ class C05Spec(seqx.Spec):
             for k in ks:
                 for side in ("s", "a"):
                     out.append({"t": "W", "key": k, "val": "v1", "side": side, "how": "oneshot"})
+        # the other ways an entry goes away: removal together with its content (both flavours), and its content removed by
+        # address first (the keys may share one content file)
+        for side in ("s", "a"):
+            out.append({"t": "RF", "key": ks[0], "side": side})
+        out.append({"t": "RH", "val": "v2", "side": "a"})
         return out
 
     def observe(self, ctx, res, srv, cache, model, replay):
